@@ -4,13 +4,14 @@ Protocol (see harness/cmd/c03/main.go):
   cfg rate <p:a:b[,p:a:b…]> cap=<n> [solo=1]
     at <ns> req <src> <amount> [rates=<…>] [evict=<src>]   -> 200 | 429 <delay_ns> | 500   [solo=<…>]
     retry [extra=<ns>]                                      -> <resp> t=<ns> | noretry
+    at <ns> preq <src> <amount> <n> <goroutines>            -> 200=<a> 429=<b> 500=<c>   (concurrent flood at one instant)
   cfg set <rates>
     at <ns> consume <amount> -> ok | delay <ns> | err ;  at <ns> update <rates> -> ok ; maxperiod -> <ns>
   cfg ttlmap cap=<n>
     at <ns> set <key> <ttl> [v=<n>] [probe=a,b] [evict=<key>] -> ok len=<n> [gone=…] | err ttl
     at <ns> get <key> -> hit <v> | miss ; len -> <n>
   cfg conn max=<m>
-    start <id> <src> | finish <id> -> admitted | 429 | released | dup | unknown
+    start <id> <src> | finish <id> [rewrite=<src2>] -> admitted | 429 | released | dup | unknown
 """
 S = 10 ** 9
 
@@ -54,7 +55,8 @@ def kv(f, key):
 
 class Ev:
     """one request of a `cfg rate` / `cfg set` scenario as seen on the implementation's output"""
-    __slots__ = ("idx", "t", "src", "amount", "status", "delay", "rates", "evict", "solo", "retry")
+    __slots__ = ("idx", "t", "src", "amount", "status", "delay", "rates", "evict", "solo", "retry", "n", "counts")
+    # status: "200" | "429" | "500" | "update" | "preq" (then n = number of requests, counts = (n200, n429, n500))
 
 
 def events(ops, outs):
@@ -84,6 +86,17 @@ def events(ops, outs):
                 now = max(now, int(f[1]))
                 e.t, e.src, e.amount = now, f[3], int(f[4])
                 e.rates, e.evict = kv(f, "rates"), kv(f, "evict")
+            elif f[0] == "at" and f[2] == "preq":
+                now = max(now, int(f[1]))
+                e.t, e.src, e.amount, e.n = now, f[3], int(f[4]), int(f[5])
+                e.rates, e.evict = kv(f, "rates"), kv(f, "evict")
+                c = (int(kv(of, "200")), int(kv(of, "429")), int(kv(of, "500")))
+                if sum(c) != e.n or len(of) != 3:
+                    broken = (i, "flood of %d requests answered %r" % (e.n, o))
+                    break
+                e.status, e.delay, e.counts = "preq", 0, c
+                evs.append(e)
+                continue
             elif f[0] == "retry":
                 if o == "noretry":
                     continue
